@@ -274,6 +274,126 @@ Definition readspec_model (sv : survey) (plate : arg) (mjd : option arg) (fiber 
 Definition readspec_S (sv : survey) (reqs : list req) (znum : option Z) : option (list img) :=
   sequenceM (map (fun w => spec_readspec sv w reqs) (outputs sv reqs znum)).
 
+(* ------------------------------------------------------------------ fiber=None: number_of_fibers and the expansion (M) *)
+
+(* one row of platelist.fits; RUN2D / RUN1D strings are represented by integer codes (equality is all that is used) *)
+Record plrow := mkPl { pl_plate : Z; pl_mjd : Z; pl_run2d : Z; pl_run1d : Z; pl_ntotal : Z }.
+
+Definition sdss_nfiber : Z := 640.        (* nfiber[mjd < 55025] = 640 *)
+Definition boss_first_mjd : Z := 55025.
+
+(* platentotal[(plateplate == p) & (platemjd == m) & (platerun2d == run2d) & (platerun1d == run1d)][0] *)
+Definition ntotal_lookup (pl : list plrow) (p m r2 r1 : Z) : option Z :=
+  match find (fun r => (pl_plate r =? p) && (pl_mjd r =? m) && (pl_run2d r =? r2) && (pl_run1d r =? r1)) pl with
+  | Some r => Some (pl_ntotal r)
+  | None => None
+  end.
+
+(* number_of_fibers(plate): 640 everywhere when every plate's latest MJD is before 55025; otherwise EVERY plate
+   (also the early ones) is looked up in the platelist *)
+Definition number_of_fibers (sv : survey) (pl : list plrow) (r2 r1 : Z) (plates : list Z) : option (list Z) :=
+  let mjds := map (latest_mjd sv) plates in
+  if forallb (fun m => m <? boss_first_mjd) mjds then Some (map (fun _ => sdss_nfiber) plates)
+  else mapM (fun pm => ntotal_lookup pl (fst pm) (snd pm) r2 r1) (combine plates mjds).
+
+(* np.unique(nfibers[plate == p])[0]; all entries of one plate are equal (same latest MJD), the first is taken *)
+Definition nf_first (plates nfibers : list Z) (p : Z) : Z :=
+  match find (fun pn => fst pn =? p) (combine plates nfibers) with Some pn => snd pn | None => 0 end.
+
+(* the loop  for p in np.unique(plate): platevec[k:k+n] = p; fibervec[k:k+n] = arange(n)+1; k += n
+   over arrays of nfibers.sum() zeros (a repeated plate leaves zeros at the end) *)
+Definition all_fiber_pairs (plates nfibers : list Z) : list (Z * Z) :=
+  flat_map (fun p => map (fun f => (p, Z.of_nat f)) (seq 1 (Z.to_nat (nf_first plates nfibers p)))) (usort plates).
+Definition all_fiber_vectors (plates nfibers : list Z) : list (Z * Z) :=
+  let assigned := all_fiber_pairs plates nfibers in
+  assigned ++ repeat (0, 0) (Z.to_nat (fold_right Z.add 0 nfibers) - length assigned).
+
+Definition request_vectors_all (sv : survey) (pl : list plrow) (r2 r1 : Z) (plate : arg) (mjd : option arg)
+  : option (list req) :=
+  match number_of_fibers sv pl r2 r1 (avals plate) with
+  | None => None
+  | Some nf =>
+      let pf := all_fiber_vectors (avals plate) nf in
+      let platevec := map fst pf in
+      let fibervec := map snd pf in
+      match mjd with
+      | None => Some (zip3 platevec (map (latest_mjd sv) platevec) fibervec)
+      | Some m =>
+          if negb (alen m =? alen plate)%nat then None
+          else if (alen m =? 1)%nat then Some (zip3 platevec (repeat (hd 0 (avals m)) (length platevec)) fibervec)
+          else if (alen m =? length platevec)%nat then Some (zip3 platevec (avals m) fibervec)
+          else None                                  (* shapes cannot be broadcast *)
+      end
+  end.
+
+Definition readspec_model_all (sv : survey) (pl : list plrow) (r2 r1 : Z) (plate : arg) (mjd : option arg)
+  : option (list img) :=
+  match request_vectors_all sv pl r2 r1 plate mjd with
+  | None => None
+  | Some reqs => sequenceM (map (fun w => readspec_core sv w reqs) (outputs sv reqs None))
+  end.
+
+(* ------------------------------------------------------------------ spec_path and file names (M) *)
+
+Definition bytes := list Z.     (* ASCII codes *)
+
+(* decimal digits, most significant first; fuel log2 n + 1 is enough (Proofs: dec_value) *)
+Fixpoint dec_fuel (fuel : nat) (n : Z) (acc : bytes) : bytes :=
+  match fuel with
+  | O => acc
+  | S k => if n <? 10 then (48 + n) :: acc else dec_fuel k (n / 10) ((48 + n mod 10) :: acc)
+  end.
+Definition dec (n : Z) : bytes := dec_fuel (S (Z.to_nat (Z.log2 n))) n [].
+(* '{0:0Wd}'.format(n) for n >= 0 *)
+Definition fmt (w : nat) (n : Z) : bytes := let d := dec n in repeat 48 (w - length d) ++ d.
+(* value of a digit string *)
+Definition dvalue (l : bytes) : Z := fold_left (fun a d => a * 10 + (d - 48)) l 0.
+Definition is_digit (d : Z) : bool := (48 <=? d) && (d <=? 57).
+
+Definition plate_width : nat := 4.      (* '{0:04d}' *)
+Definition mjd_width : nat := 5.        (* '{1:05d}' *)
+Definition dash : Z := 45.
+Definition pmjdstr (plate mjd : Z) : bytes := fmt plate_width plate ++ [dash] ++ fmt mjd_width mjd.
+Definition dot_fits : bytes := [46; 102; 105; 116; 115].
+Definition pre_spplate : bytes := [115; 112; 80; 108; 97; 116; 101; 45].                 (* "spPlate-" *)
+Definition pre_spzbest : bytes := [115; 112; 90; 98; 101; 115; 116; 45].                 (* "spZbest-" *)
+Definition pre_spzall : bytes := [115; 112; 90; 97; 108; 108; 45].                       (* "spZall-" *)
+Definition pre_photoplate : bytes := [112; 104; 111; 116; 111; 80; 108; 97; 116; 101; 45]. (* "photoPlate-" *)
+Definition file_name (prefix : bytes) (plate mjd : Z) : bytes := prefix ++ pmjdstr plate mjd ++ dot_fits.
+
+(* where a call looks: path= (one flat directory) or a top directory (topdir= or environment) *)
+Inductive loc := LPath (dir : bytes) | LTop (topdir : bytes).
+Record envt := mkEnv { e_sdss : option bytes;     (* SPECTRO_REDUX *)
+                       e_boss : option bytes }.   (* BOSS_SPECTRO_REDUX *)
+(* int(run2d) succeeds: modelled as "non-empty, decimal digits only" *)
+Definition is_int_string (r : bytes) : bool := negb (Nat.eqb (length r) 0) && forallb is_digit r.
+Definition env_top (env : envt) (run2d : bytes) : option bytes := if is_int_string run2d then e_sdss env else e_boss env.
+(* None = KeyError (variable not set) *)
+Definition resolve_loc (path topdir : option bytes) (env : envt) (run2d : bytes) : option loc :=
+  match path with
+  | Some p => Some (LPath p)
+  | None => match topdir with
+            | Some t => Some (LTop t)
+            | None => match env_top env run2d with Some t => Some (LTop t) | None => None end
+            end
+  end.
+(* spec_path: path components of the directory of a plate *)
+Definition plate_dir (l : loc) (run2d : bytes) (plate : Z) : list bytes :=
+  match l with LPath p => [p] | LTop t => [t; run2d; fmt plate_width plate] end.
+Definition spplate_file (l : loc) (run2d : bytes) (plate mjd : Z) : list bytes :=
+  plate_dir l run2d plate ++ [file_name pre_spplate plate mjd].
+Definition spz_file (l : loc) (run2d run1d prefix : bytes) (plate mjd : Z) : list bytes :=
+  plate_dir l run2d plate ++ [run1d; file_name prefix plate mjd].
+
+(* the spPlate files one call opens, in the order of the unique keys *)
+Definition opened_spplate (l : loc) (run2d : bytes) (reqs : list req) : list (list bytes) :=
+  map (fun k => spplate_file l run2d (key_plate k) (key_mjd k)) (usort (map (fun r => key (r_plate r) (r_mjd r)) reqs)).
+
+(* a file system holding several trees / reductions; a call sees it through its own location and run2d *)
+Record tree := mkTree { t_loc : loc; t_run2d : bytes; t_survey : survey }.
+Definition mount (trees : list tree) : list (list bytes * file) :=
+  flat_map (fun t => map (fun f => (spplate_file (t_loc t) (t_run2d t) (f_plate f) (f_mjd f), f)) (t_survey t)) trees.
+
 (* ------------------------------------------------------------------ correspondence cases *)
 
 Definition eqb_listZ (a b : list Z) : bool :=
@@ -292,6 +412,9 @@ Inductive case :=
      (None = the harness expects an error from the calling convention), observed output (None = exception) *)
 | CRead (sv : survey) (plate : arg) (mjd : option arg) (fiber : arg) (znum : option Z)
         (reqs : option (list req)) (expect : option (list img))
+  (* readspec(plate, mjd, fiber=None): all fibres; platelist rows and the codes of the call's RUN2D / RUN1D *)
+| CReadAll (sv : survey) (pl : list plrow) (r2 r1 : Z) (plate : arg) (mjd : option arg)
+           (reqs : option (list req)) (expect : option (list img))
 | CAppend (a b : img) (pixshift : Z) (expect : option img).
 
 (* verdict: 0 = model = impl and spec satisfied; +1 model differs from impl; +2 impl contradicts the spec *)
@@ -304,6 +427,17 @@ Definition run_case (c : case) : Z :=
         | None => false
         | Some rq => match readspec_S sv rq znum with
                      | None => false              (* invalid request (no file, no such fiber): no claim *)
+                     | Some s => negb (eqb_oimgs (Some s) expect)
+                     end
+        end in
+      (if eqb_oimgs m expect then 0 else 1) + (if spec_bad then 2 else 0)
+  | CReadAll sv pl r2 r1 plate mjd reqs expect =>
+      let m := readspec_model_all sv pl r2 r1 plate mjd in
+      let spec_bad :=
+        match reqs with
+        | None => false
+        | Some rq => match readspec_S sv rq None with
+                     | None => false
                      | Some s => negb (eqb_oimgs (Some s) expect)
                      end
         end in
